@@ -454,6 +454,11 @@ pub struct Family {
     /// require weak connectivity (pipe edges + references); `false` admits several components
     /// that meet only through a shared loop context.
     pub connected: bool,
+    /// keep only decorations with at least this many references
+    pub min_refs: usize,
+    /// `false`: isomorphic *wirings* are still merged, but every reference decoration of a wiring
+    /// is kept (so that access groups meet every declaration order of their users).
+    pub iso_dedup_refs: bool,
 }
 
 fn multisets(alpha: &[Kind], n: usize) -> Vec<Vec<Kind>> {
@@ -585,6 +590,19 @@ fn ref_decorations(kinds: &[Kind], max_refs: usize) -> Vec<Vec<Ref>> {
                 }
             }
         }
+        // k = 3, 4 distinct access groups on one handoff: every ordered k-tuple of distinct users gets
+        // groups 0..k (first mutable, rest shared).
+        for k in 3..=4usize {
+            if k > max_refs || users.len() < k {
+                continue;
+            }
+            for sub in vf_explore::combi::k_subsets(users.len(), k) {
+                let us: Vec<usize> = sub.iter().map(|&i| users[i]).collect();
+                for perm in vf_explore::combi::permutations(&us) {
+                    pats.push(perm.iter().enumerate().map(|(g, &a)| r(a, g == 0, Some(g as u32))).collect());
+                }
+            }
+        }
         per_target.push(pats);
     }
     // iter_ref nodes: each references exactly one handoff (ungrouped shared) — only combined with
@@ -637,11 +655,21 @@ impl Family {
             return out;
         }
         let mut seen: BTreeSet<(Vec<Edge>, Vec<Ref>)> = BTreeSet::new();
-        let decos = ref_decorations(kinds, self.max_refs);
+        let mut shapes: std::collections::BTreeMap<Vec<Edge>, Vec<Edge>> = Default::default();
+        let mut decos = ref_decorations(kinds, self.max_refs);
+        decos.retain(|d| d.len() >= self.min_refs);
         if decos.is_empty() {
             return out;
         }
         for edges in matchings(kinds, !self.cycles) {
+            if !self.iso_dedup_refs {
+                // one representative wiring per isomorphism class, all decorations of it
+                let bare = Prog { kinds: kinds.to_vec(), edges: edges.clone(), refs: vec![] };
+                let (_, e, _) = bare.canon();
+                if shapes.entry(e).or_insert_with(|| edges.clone()) != &edges {
+                    continue;
+                }
+            }
             for refs in &decos {
                 let p = Prog { kinds: kinds.to_vec(), edges: edges.clone(), refs: refs.clone() };
                 if self.connected && !p.weakly_connected() {
@@ -649,6 +677,10 @@ impl Family {
                 }
                 let Some(ctx) = p.contexts() else { continue };
                 if p.trivially_refused(&ctx) || (!self.cycles && p.has_undelayed_data_cycle()) {
+                    continue;
+                }
+                if !self.iso_dedup_refs {
+                    out.push(p);
                     continue;
                 }
                 let (_, e, r) = p.canon();
@@ -729,6 +761,16 @@ fn f_refs_big(ks: &[Kind]) -> bool {
         && count(ks, |k| matches!(k, DeferTick | Batch0)) <= 1
 }
 
+fn f_groups(ks: &[Kind]) -> bool {
+    let users = count(ks, |k| matches!(k, Map | Sink));
+    count(ks, |k| k.is_hoff()) == 1 && users >= 3 && count(ks, |k| k == Map) <= 2 && count(ks, |k| k == Src) >= 2
+}
+fn f_hoff_delay(ks: &[Kind]) -> bool {
+    count(ks, |k| k.is_hoff()) == 1
+        && count(ks, |k| matches!(k, DeferTick | DeferTickLazy)) == 1
+        && count(ks, |k| k == Src) >= 1
+        && count(ks, |k| k == Map) <= 1
+}
 fn f_loops_multi(ks: &[Kind]) -> bool {
     count(ks, |k| k == Src) == 2
         && count(ks, |k| matches!(k, Batch0 | BatchLazy0)) == 2
@@ -769,6 +811,8 @@ pub fn families(thorough: bool) -> Vec<Family> {
         filter,
         cycles,
         connected: true,
+        min_refs: 0,
+        iso_dedup_refs: true,
     };
     // components that meet only inside a shared loop (the #3048 regression shape and relatives)
     let multi = |n_max| Family {
@@ -780,6 +824,22 @@ pub fn families(thorough: bool) -> Vec<Family> {
         filter: f_loops_multi,
         cycles: false,
         connected: false,
+        min_refs: 0,
+        iso_dedup_refs: true,
+    };
+    // k distinct access groups on one handoff; users on separate pipelines and on one pipeline,
+    // every assignment of groups to users (no isomorphism reduction on the references)
+    let groups = |name, n_min, n_max, k| Family {
+        name,
+        alphabet: vec![Src, Sink, Map, HoffSing0],
+        n_min,
+        n_max,
+        max_refs: k,
+        filter: f_groups,
+        cycles: false,
+        connected: true,
+        min_refs: k,
+        iso_dedup_refs: false,
     };
     let mut v = vec![];
     if !thorough {
@@ -795,6 +855,17 @@ pub fn families(thorough: bool) -> Vec<Family> {
         v.push(fam("cyc-loops", loops_alpha.clone(), 3, 5, 0, f_loops, true));
         v.push(fam("loop-refs", vec![Src, Sink, Map, Tee2, Batch0, AllIter, HoffSing0, HoffSing1], 5, 6, 1, f_loop_refs, false));
         v.push(multi(7));
+        // explicit handoff()/singleton()/optional() directly in front of defer_tick / defer_tick_lazy
+        v.push(fam(
+            "hoff-delay",
+            vec![Src, Sink, Map, Union2, Tee2, HoffVec1, HoffSing1, HoffOpt1, DeferTick, DeferTickLazy],
+            3,
+            6,
+            0,
+            f_hoff_delay,
+            false,
+        ));
+        v.push(groups("groups3", 6, 8, 3));
         // users of one handoff off the handoff's own chain (two access groups can be acyclic)
         v.push(fam("refs5", vec![Src, Sink, Map, Tee2, HoffSing0, HoffVec1], 5, 5, 2, f_refs_big, false));
     } else {
@@ -819,6 +890,17 @@ pub fn families(thorough: bool) -> Vec<Family> {
         v.push(fam("refs", [vec![Src, Sink, Map, Tee2, Union2, SrcRef], hoffs.to_vec()].concat(), 2, 4, 3, f_refs, true));
         v.push(fam("unary", unary_alpha.clone(), 3, 6, 0, f_unary, false));
         v.push(multi(8));
+        v.push(fam(
+            "hoff-delay",
+            vec![Src, Sink, Map, Union2, Tee2, HoffVec1, HoffSing1, HoffOpt1, DeferTick, DeferTickLazy],
+            3,
+            7,
+            0,
+            f_hoff_delay,
+            false,
+        ));
+        v.push(groups("groups3", 6, 8, 3));
+        v.push(groups("groups4", 8, 10, 4));
         v.push(fam(
             "refs5",
             [vec![Src, Sink, Map, Tee2, Union2, DeferTick, Batch0, AllIter], vec![HoffSing0, HoffSing1, HoffVec1]].concat(),
